@@ -631,7 +631,10 @@ func (p *partition) getStopOffset(req *client.SubscribeRequest) (int64, *status.
 	switch req.StopPosition {
 	case client.StopPosition_STOP_ON_CANCEL:
 		stopOffset = waitForNewMessages
-		if p.log.IsReadonly() {
+		// A readonly partition ends at the end of the log. This only applies
+		// when reading forward: a reverse subscription reads towards the
+		// oldest message and ends there.
+		if p.log.IsReadonly() && !req.Reverse {
 			stopOffset = p.log.NewestOffset()
 		}
 	case client.StopPosition_STOP_OFFSET:
